@@ -44,7 +44,7 @@ Hypothesis no_requests : md_reqs m = [].
 Notation DUi := (DU flat_fs flat_lookup f m).
 Notation DGi := (DG flat_fs flat_lookup f m).
 Notation inst_DG_rstep := (DG_rstep flat_fs flat_write inst_exec inst_resp_fail inst_not_performed inst_cksum
-                             inst_tlv_len inst_tlv_len flat_lookup flat_write_lookup f m no_requests).
+                             inst_resp_len inst_tlv_len flat_lookup flat_write_lookup f m no_requests).
 
 Definition truthful_pl (p : payload) : Prop := truthful_in f m (RPdu p).
 
@@ -116,9 +116,9 @@ Proof.
   assert (Hfr : not_recv flat_fs (l_r l) ->
     r_fs (fst (inst_rstep (l_now l) o (l_r l))) = r_fs (l_r l) /\ not_recv flat_fs (fst (inst_rstep (l_now l) o (l_r l)))).
   { intros Hn. destruct (rstep_frozen flat_fs flat_write inst_exec inst_resp_fail inst_not_performed inst_cksum
-                          inst_tlv_len inst_tlv_len (l_now l) o (l_r l) Hn) as (X & Y & _). split; assumption. }
+                          inst_resp_len inst_tlv_len (l_now l) o (l_r l) Hn) as (X & Y & _). split; assumption. }
   unfold inst_rstep in *. destruct (rstep flat_fs flat_write inst_exec inst_resp_fail inst_not_performed inst_cksum
-                                      inst_tlv_len inst_tlv_len (l_now l) o (l_r l)) as [r' res].
+                                      inst_resp_len inst_tlv_len (l_now l) o (l_r l)) as [r' res].
   cbn [fst] in *.
   (* a delivery that held before this step still holds after it *)
   set (l' := mkL (l_s l) r' (l_sr l) (if l_cut_rs l then l_rs l else l_rs l ++ pdus_of (rev (r_out r')))
